@@ -509,6 +509,28 @@ func driveCalc(c *DriverCtx) error {
 	if err := c.Run(calcOps("b", []int{49, 50, 51, 52, 53, 54, 55, 56, 57}, 0)); err != nil {
 		return err
 	}
+	// residue inputs: a message followed by ITS OWN checksum (either byte order) and a few more bytes - the
+	// running register of a CRC passes through its fixed points exactly there
+	for i := 0; i < 12*c.N; i++ {
+		msg := c.junk([]int{6, 14, 30, 62, 126, 254, 510}[i%7])
+		for _, alg := range []string{"CRC16", "CRC32"} {
+			m := NewMachine()
+			if _, err := m.Exec(Op{Op: "write", B: "b", Bytes: msg}); err != nil {
+				return err
+			}
+			ev, err := m.Exec(Op{Op: "calc", B: "b", Alg: alg})
+			if err != nil {
+				return err
+			}
+			for _, crc := range [][]int{ev.Out, rev(ev.Out)} {
+				for extra := 0; extra <= 9; extra++ {
+					if err := c.Run(calcOps("b", append(append(append([]int{}, msg...), crc...), c.junk(extra)...), 0)); err != nil {
+						return err
+					}
+				}
+			}
+		}
+	}
 	for i := 0; i < 40*c.N; i++ {
 		n := 4 + r.Intn(300)
 		if i%10 == 0 {
@@ -561,6 +583,90 @@ func driveCalcReuse(c *DriverCtx) error {
 
 func init() { Drivers["calc-reuse"] = driveCalcReuse }
 
+// Length / count sweeps: every prefixed primitive with EVERY length (count) in a range, written
+// and read back (and followed by a sentinel byte, so that consumption is visible). Exhaustive
+// over the range rather than sampled: chunked loops, scratch buffers and batch sizes have their
+// fenceposts at lengths nobody would guess.
+func drivePrimSweep(c *DriverCtx) error {
+	max := 1100
+	if c.N > 1 {
+		max = 4200
+	}
+	type fam struct {
+		wfn, rfn string
+		args     func(n int) map[string]any
+	}
+	one := func(v ...int) []int { return v }
+	fams := []fam{
+		{"WriteString", "ReadString", func(n int) map[string]any {
+			return map[string]any{"runs": []any{map[string]any{"b": 0x41 + n%26, "n": n}}, "s": []int{}}
+		}},
+		{"WriteBasicTypeList", "ReadBasicTypeList", func(n int) map[string]any {
+			return map[string]any{"ek": "u8", "count": n, "elem": one(1 + n%200), "vals": []any{}}
+		}},
+		{"WriteBasicTypeList", "ReadBasicTypeList", func(n int) map[string]any {
+			return map[string]any{"ek": "i16", "count": n, "elem": one(1, 2), "vals": []any{}}
+		}},
+		{"WriteBasicTypeList", "ReadBasicTypeList", func(n int) map[string]any {
+			return map[string]any{"ek": "u32", "count": n, "elem": one(1, 2, 3, 4), "vals": []any{}}
+		}},
+		{"WriteBasicTypeList", "ReadBasicTypeList", func(n int) map[string]any {
+			return map[string]any{"ek": "f64", "count": n, "elem": one(1, 2, 3, 4, 5, 6, 7, 8), "vals": []any{}}
+		}},
+		{"WriteFixedStringList", "ReadFixedStringList", func(n int) map[string]any {
+			return map[string]any{"n": 1, "count": n, "elem": one(0x42), "vals": []any{}}
+		}},
+		{"WriteFixedStringListWithPadding", "ReadFixedStringListTrimPadding", func(n int) map[string]any {
+			return map[string]any{"n": 3, "pad": 0x30, "left": true, "count": n, "elem": one(0x43, 0x44), "vals": []any{}}
+		}},
+		{"WriteStringList", "ReadStringList", func(n int) map[string]any {
+			return map[string]any{"pw2": 1, "count": n, "elem": one(0x45), "vals": []any{}}
+		}},
+	}
+	for fi, f := range fams {
+		for _, cfg := range []struct {
+			pw int
+			le bool
+		}{{2, false}, {2, true}, {4, false}, {4, true}} {
+			if c.N <= 1 && (fi+cfg.pw/2+boolToInt(cfg.le))%2 == 1 {
+				continue // quick tier: half of the (family, prefix, order) combinations, alternating
+			}
+			ops := []Op{}
+			for n := 0; n <= max; n++ {
+				if fi >= 3 && fi != 5 && n > 1100 && n%7 != 0 && c.N > 1 { // wide elements: beyond 1100 every 7th length
+					continue
+				}
+				a := f.args(n)
+				a["pw"], a["le"] = cfg.pw, cfg.le
+				b := fmt.Sprintf("b%d", n%50)
+				ops = append(ops, Op{Op: "reset", B: b}, Op{Op: "prim", B: b, Fn: f.wfn, Args: a, Tag: "sweep"}, Op{Op: "write", B: b, Bytes: []int{0xEE}},
+					Op{Op: "prim", B: b, Fn: f.rfn, Args: a, Tag: "read-back"}, Op{Op: "peek", B: b})
+				if len(ops) >= 250 {
+					if err := c.Run(ops); err != nil {
+						return err
+					}
+					ops = []Op{}
+				}
+			}
+			if len(ops) > 0 {
+				if err := c.Run(ops); err != nil {
+					return err
+				}
+			}
+		}
+	}
+	return nil
+}
+
+func boolToInt(b bool) int {
+	if b {
+		return 1
+	}
+	return 0
+}
+
+func init() { Drivers["prim-sweep"] = drivePrimSweep }
+
 func driveCalcExhaustive2(c *DriverCtx) error {
 	// all strings of exactly 2 bytes (65,536) - with driveCalc's 0- and 1-byte strings this is every string of <= 2 bytes
 	for x := 0; x < 256; x++ {
@@ -598,6 +704,7 @@ func driveCalcGiant(c *DriverCtx) error {
 		{rr(0x80, 16777216), rr(0x01, 3)},  // exactly 2^31 + 3
 		{rr(0x01, 70000), rr(0xfe, 70000)}, // beyond 64 KiB, mixed
 		{rr(0xff, 16843010)},               // 2^32 + ...: an unsigned 32-bit sum wraps
+		{rr(0xff, 67373056)},               // 64 MiB + 256 KiB of 0xFF: a quarter of the bytes sum beyond 2^32
 	}
 	if c.N > 1 {
 		giants = append(giants, []any{rr(0xff, 33686020)}, []any{rr(0x7f, 20000000), rr(0xff, 9000000)})
